@@ -165,10 +165,19 @@ def inverse_topology(outer, update, topology, inverse=None, multi_updates=True):
                     inner = outer
 
                 for child, child_update in update.items():
+                    # variables of the child that the topology does not
+                    # mention are wired to the store of the same name,
+                    # as they are when read
+                    child_path = dict(path)
+                    if isinstance(child_update, dict):
+                        for update_key in child_update.keys():
+                            if (update_key not in child_path
+                                    and '*' not in child_path):
+                                child_path[update_key] = (update_key,)
                     inverse = inverse_topology(
                         inner + (child,),
                         update[child],
-                        path,
+                        child_path,
                         inverse,
                         multi_updates)
             else:
